@@ -36,6 +36,8 @@ pub enum ErrSpec {
     Sig(String, String),
     /// std::io::Error boxed directly
     Io,
+    /// std::io::Error of the named kind boxed directly (see `IO_KINDS`)
+    IoKind(String),
     /// a String turned into a boxed error
     Str,
     /// a harness-private error type
@@ -65,8 +67,32 @@ impl std::fmt::Display for PrivateError {
 }
 impl std::error::Error for PrivateError {}
 
+/// Every stable `std::io::ErrorKind` (a provider backed by files, sockets or a database may fail with any of them).
+pub const IO_KINDS: [(&str, std::io::ErrorKind); 36] = {
+    use std::io::ErrorKind::*;
+    [
+        ("NotFound", NotFound), ("PermissionDenied", PermissionDenied), ("ConnectionRefused", ConnectionRefused), ("ConnectionReset", ConnectionReset),
+        ("ConnectionAborted", ConnectionAborted), ("NotConnected", NotConnected), ("AddrInUse", AddrInUse), ("AddrNotAvailable", AddrNotAvailable),
+        ("BrokenPipe", BrokenPipe), ("AlreadyExists", AlreadyExists), ("WouldBlock", WouldBlock), ("InvalidInput", InvalidInput),
+        ("InvalidData", InvalidData), ("TimedOut", TimedOut), ("WriteZero", WriteZero), ("Interrupted", Interrupted),
+        ("Unsupported", Unsupported), ("UnexpectedEof", UnexpectedEof), ("OutOfMemory", OutOfMemory), ("Other", Other),
+        ("HostUnreachable", HostUnreachable), ("NetworkUnreachable", NetworkUnreachable), ("NetworkDown", NetworkDown), ("NotADirectory", NotADirectory),
+        ("IsADirectory", IsADirectory), ("DirectoryNotEmpty", DirectoryNotEmpty), ("ReadOnlyFilesystem", ReadOnlyFilesystem), ("StaleNetworkFileHandle", StaleNetworkFileHandle),
+        ("StorageFull", StorageFull), ("NotSeekable", NotSeekable), ("FileTooLarge", FileTooLarge), ("ResourceBusy", ResourceBusy),
+        ("ExecutableFileBusy", ExecutableFileBusy), ("Deadlock", Deadlock), ("TooManyLinks", TooManyLinks), ("ArgumentListTooLong", ArgumentListTooLong),
+    ]
+};
+
+pub fn io_kind(name: &str) -> std::io::ErrorKind {
+    IO_KINDS.iter().find(|(n, _)| *n == name).map(|(_, k)| *k).unwrap_or(std::io::ErrorKind::Other)
+}
+
 pub fn make_sig_error(kind: &str, msg: &str) -> SignatureError {
     let m = msg.to_string();
+    if let Some(k) = kind.strip_prefix("IO:") {
+        // SignatureError::IO wrapping an io::Error of that kind
+        return SignatureError::IO(std::io::Error::new(io_kind(k), m));
+    }
     match kind {
         "ExpiredToken" => SignatureError::ExpiredToken(m),
         "IO" => SignatureError::IO(std::io::Error::new(std::io::ErrorKind::Other, m)),
@@ -89,6 +115,7 @@ pub fn make_err(e: &ErrSpec) -> BoxError {
     match e {
         ErrSpec::Sig(k, m) => Box::new(make_sig_error(k, m)),
         ErrSpec::Io => Box::new(std::io::Error::new(std::io::ErrorKind::TimedOut, "key store timed out")),
+        ErrSpec::IoKind(k) => Box::new(std::io::Error::new(io_kind(k), "key store i/o failure")),
         ErrSpec::Str => "key store unavailable".to_string().into(),
         ErrSpec::Private => Box::new(PrivateError(1)),
         ErrSpec::Record(r) => Box::new(KeyStoreError { record: r.clone() }),
